@@ -1021,6 +1021,30 @@ mod verif_trust {
         if k == 0 { tgt_first(h) } else { ct(h, k - 1) + if matches!(kind(&h.lines()[k - 1]), Kind::Ctx | Kind::Add) { 1 } else { 0 } }
     }
 
+    /// ucs(h, k) of prelude/diff_parse_hunk.rs: unidiff's own old-file cursor, from `source_start`
+    fn ucs(h: &unidiff::Hunk, k: usize) -> i64 {
+        if k == 0 { h.source_start as i64 } else { ucs(h, k - 1) + if matches!(kind(&h.lines()[k - 1]), Kind::Ctx | Kind::Rem) { 1 } else { 0 } }
+    }
+
+    /// uct(h, k): unidiff's own new-file cursor, from `target_start`
+    fn uct(h: &unidiff::Hunk, k: usize) -> i64 {
+        if k == 0 { h.target_start as i64 } else { uct(h, k - 1) + if matches!(kind(&h.lines()[k - 1]), Kind::Ctx | Kind::Add) { 1 } else { 0 } }
+    }
+
+    /// line_parsed(h, k) of prelude/diff_parse_hunk.rs - the postcondition of `parse_hunk` proved in group
+    /// unidiffparse and ASSUMED of every hunk `PatchSet::from_str` returns (`file_parsed`): a line carries
+    /// exactly the numbers of its kind, taken from unidiff's running cursors
+    fn line_parsed(h: &unidiff::Hunk, k: usize) -> bool {
+        let l = &h.lines()[k];
+        let (src, tgt) = (l.source_line_no.map(|n| n as i64), l.target_line_no.map(|n| n as i64));
+        match kind(l) {
+            Kind::Add => src.is_none() && tgt == Some(uct(h, k)),
+            Kind::Rem => src == Some(ucs(h, k)) && tgt.is_none(),
+            Kind::Ctx => src == Some(ucs(h, k)) && tgt == Some(uct(h, k)),
+            Kind::Other => src.is_none() && tgt.is_none(),
+        }
+    }
+
     /// line_wf(h, k), returned as the list of violated clauses. A line of kind Other (git's
     /// `\ No newline at end of file` marker) is admitted in exactly one position, `marker_wf(ls, k)`:
     /// no line number of either file, directly after a removed line, not the last line of the hunk and
@@ -1067,6 +1091,10 @@ mod verif_trust {
             for k in 0..n {
                 for viol in line_wf_violations(h, k) {
                     v.push(format!("hunk {hi} line {k}: line_wf: {viol}"));
+                }
+                // file_parsed / hunk_parsed / line_parsed (assumed of `PatchSet::from_str`'s result)
+                if !line_parsed(h, k) {
+                    v.push(format!("hunk {hi} line {k}: line_parsed (numbers of its kind from unidiff's cursors ucs/uct)"));
                 }
                 // file_numbered / line_numbered
                 let l = &h.lines()[k];
@@ -1132,7 +1160,7 @@ mod verif_trust {
                     let violations: Vec<String> = ps.files().iter().flat_map(file_wf_violations).collect();
                     t.check(
                         spec,
-                        "file_numbered(f) && file_wf(f): every +/-/context line is numbered by the running cursors cs/ct (zero-length side names the line before), a line of another kind (the `\\ No newline at end of file` marker) has no line number, directly follows a removed line and is directly followed by an added line, removed lines precede added lines in a run, header lengths = line counts, at least one unchanged line between hunks",
+                        "file_parsed(f) && file_numbered(f) && file_wf(f): every line carries exactly the numbers of its kind from unidiff's cursors (added: target only, removed: source only, context: both, other: none); every +/-/context line is numbered by the running cursors cs/ct (zero-length side names the line before), a line of another kind (the `\\ No newline at end of file` marker) has no line number, directly follows a removed line and is directly followed by an added line, removed lines precede added lines in a run, header lengths = line counts, at least one unchanged line between hunks",
                         input,
                         json!([] as [String; 0]),
                         json!(violations),
@@ -1247,6 +1275,6 @@ mod verif_trust {
                 json!(false),
             );
         }
-        t.finish(&format!("REAL `git diff --no-index -U0/-U1/-U3` of every edit script (delete any subset, insert 0..=1 line per gap) on files of 0..=4 lines, 6 multi-hunk edits of a 12-line file at -U0..-U3; files WITHOUT a final newline (old side, new side, both): every such edit script on files of 1..=3 lines at -U0/-U1/-U3, 8 hand-picked pairs, 5 edits of a 12-line file at -U0..-U3 - {markers_in_text} `\\ No newline at end of file` lines in the diff texts, {markers_in_hunks} of them kept inside a parsed hunk (each must satisfy marker_wf), the others dropped by unidiff's early break; parsed with the real unidiff crate; line_wf (incl. marker_wf) / hunk_wf / hunk_gap / file_numbered / removed_file transcribed from prelude/diff_lines_spec.rs and diff_unidiff.rs"));
+        t.finish(&format!("REAL `git diff --no-index -U0/-U1/-U3` of every edit script (delete any subset, insert 0..=1 line per gap) on files of 0..=4 lines, 6 multi-hunk edits of a 12-line file at -U0..-U3; files WITHOUT a final newline (old side, new side, both): every such edit script on files of 1..=3 lines at -U0/-U1/-U3, 8 hand-picked pairs, 5 edits of a 12-line file at -U0..-U3 - {markers_in_text} `\\ No newline at end of file` lines in the diff texts, {markers_in_hunks} of them kept inside a parsed hunk (each must satisfy marker_wf), the others dropped by unidiff's early break; parsed with the real unidiff crate; line_wf (incl. marker_wf) / hunk_wf / hunk_gap / file_numbered / removed_file transcribed from prelude/diff_lines_spec.rs and diff_unidiff.rs, line_parsed / ucs / uct from prelude/diff_parse_hunk.rs"));
     }
 }
